@@ -1005,8 +1005,48 @@ func renderPom(c pomCase, lr *rand.Rand, variant string) string {
 		}
 		w(1, "</profiles>")
 	}
-	if lr.Intn(3) == 0 {
-		w(1, "<build><plugins><plugin><groupId>pl.g</groupId><artifactId>pl-a</artifactId><version>3.1</version></plugin></plugins></build>")
+	// dependencies of build/pluginManagement plugins: origin "plugin@<groupId>:<artifactId>"; a plugin may leave its groupId out
+	// (origin "plugin@:<artifactId>", Maven then assumes org.apache.maven.plugins)
+	var plugs []string
+	seenPl := map[string]bool{}
+	for _, d := range c.deps {
+		if strings.HasPrefix(d.origin, "plugin@") && !seenPl[d.origin] {
+			seenPl[d.origin] = true
+			plugs = append(plugs, d.origin)
+		}
+	}
+	noise := lr.Intn(3) == 0
+	if len(plugs) == 0 {
+		if noise {
+			w(1, "<build><plugins><plugin><groupId>pl.g</groupId><artifactId>pl-a</artifactId><version>3.1</version></plugin></plugins></build>")
+		}
+	} else {
+		w(1, "<build>")
+		if noise { // a plugin outside pluginManagement, under another name: Read does not list its dependencies
+			w(2, "<plugins><plugin><groupId>other.g</groupId><artifactId>other-plugin</artifactId><version>3.1</version></plugin></plugins>")
+		}
+		w(2, "<pluginManagement>")
+		w(3, "<plugins>")
+		for _, o := range plugs {
+			g, a, _ := strings.Cut(strings.TrimPrefix(o, "plugin@"), ":")
+			w(4, "<plugin>")
+			if g != "" {
+				w(5, "<groupId>"+g+"</groupId>")
+			}
+			w(5, "<artifactId>"+a+"</artifactId>")
+			w(5, "<version>3.1</version>")
+			w(5, "<dependencies>")
+			for _, d := range c.deps {
+				if d.origin == o {
+					dep(6, d)
+				}
+			}
+			w(5, "</dependencies>")
+			w(4, "</plugin>")
+		}
+		w(3, "</plugins>")
+		w(2, "</pluginManagement>")
+		w(1, "</build>")
 	}
 	sb.WriteString("</project>")
 	if lr.Intn(2) == 0 {
@@ -1191,9 +1231,10 @@ func runPom(c pomCase, variant string) (before string, reply string) {
 		pre := viewPom(s.m, c.projVersion)
 		cd, cp := caseView(c)
 		if pre.deps != cd || pre.props != cp {
-			// the abstraction does not describe what Read saw: a generator fault, not a finding
+			// the abstraction does not describe what Read saw (dependencies with their origins, properties): reported as a reply no
+			// model answer equals, so that it surfaces as a divergence with a replay file (a generator fault or a changed Read)
 			fmt.Fprintf(os.Stderr, "c13gen: abstract pom differs from Read's view\ncase  %s / %s\nread  %s / %s\n%s\n", cd, cp, pre.deps, pre.props, s.src)
-			os.Exit(3)
+			return "r=read-view-differs deps=" + pre.deps + " props=" + pre.props
 		}
 		before = pre.reqs
 		var ups []result.PackageUpdate
@@ -1477,6 +1518,16 @@ func genPom(r *rand.Rand) pomCase {
 		}
 		for i := r.Intn(2); i > 0; i-- {
 			add(o+"@management", avail, dupOK())
+		}
+	}
+	// (listed after the profile entries, as buildOriginalRequirements does) every fifth pom: one or two pluginManagement plugins with dependencies of their own (Read lists them among the requirements
+	// for updates), half of the plugins without <groupId>
+	if r.Intn(5) == 0 {
+		for i, n := 0, 1+r.Intn(2); i < n; i++ {
+			o := []string{"plugin@pl.g:pl-a", "plugin@:maven-x-plugin", "plugin@:maven-y-plugin", "plugin@org.apache.maven.plugins:maven-z-plugin"}[r.Intn(4)]
+			for k := 1 + r.Intn(2); k > 0; k-- {
+				add(o, mainProps, dupOK())
+			}
 		}
 	}
 	return c
